@@ -42,6 +42,9 @@ pub fn random_moveno(rng: &mut Rng) -> u64 {
 
 /// W1: random material with a density class, random squares.
 pub fn w1(rng: &mut Rng) -> (MBoard, bool, u64) {
+    if rng.below(16) == 0 {
+        return wide(rng);
+    }
     let mut b = MBoard::empty();
     let density = rng.below(4);
     for gold in [true, false] {
@@ -61,6 +64,58 @@ pub fn w1(rng: &mut Rng) -> (MBoard, bool, u64) {
     }
     legalise(&mut b);
     (b, rng.chance(1, 2), random_moveno(rng))
+}
+
+/// Wide-open positions: the mover's whole army spread over one colour class of the 36 inner squares (the 16
+/// non-trap squares of that class: no two pieces adjacent, every piece with four empty neighbours), a few pieces
+/// then moved elsewhere, and a handful of weak enemy pieces dropped among them. These are the positions with
+/// the longest step lists (50-70 steps), which random material on random squares never comes near.
+pub fn wide(rng: &mut Rng) -> (MBoard, bool, u64) {
+    let mut b = MBoard::empty();
+    let mover_gold = rng.chance(1, 2);
+    let class = rng.below(2);
+    let mut squares: Vec<usize> = (0..64usize).filter(|i| (1..7).contains(&(i % 8)) && (1..7).contains(&(i / 8)) && (i % 8 + i / 8) % 2 == class && !TRAPS.contains(i)).collect();
+    rng.shuffle(&mut squares);
+    let mut army: Vec<u8> = vec![];
+    for s in 0..6u8 {
+        for _ in 0..COMPLEMENT[s as usize] {
+            army.push(s);
+        }
+    }
+    rng.shuffle(&mut army);
+    // sometimes a smaller army
+    let keep = if rng.chance(1, 3) { 12 + rng.below(5) } else { 16 };
+    for (k, sq) in squares.iter().enumerate().take(keep.min(army.len())) {
+        b.0[*sq] = cell(army[k], mover_gold);
+    }
+    // a few pieces wander off to arbitrary squares
+    for _ in 0..rng.below(4) {
+        let from = squares[rng.below(squares.len())];
+        let to = rng.below(64);
+        if b.0[from] != 0 && b.0[to] == 0 {
+            b.0[to] = b.0[from];
+            b.0[from] = 0;
+        }
+    }
+    // weak enemy pieces (rabbits first), sometimes a strong one
+    let n_enemy = 1 + rng.below(12);
+    let mut left = COMPLEMENT;
+    for _ in 0..n_enemy {
+        let s = match rng.below(12) {
+            0..=6 => 0u8,
+            7 | 8 => 1,
+            9 | 10 => 2,
+            _ => rng.below(6) as u8,
+        };
+        if left[s as usize] == 0 {
+            continue;
+        }
+        if place_random(&mut b, rng, cell(s, !mover_gold), 0, 64) {
+            left[s as usize] -= 1;
+        }
+    }
+    legalise(&mut b);
+    (b, mover_gold, random_moveno(rng))
 }
 
 /// W2: dense cluster around a focus square (traps, corners, edges, goal ranks), sparse elsewhere.
